@@ -487,51 +487,103 @@ Inductive sinkop :=
 | Reach (dest pid : N) (nh : option nexthop) (attrs : list attr) (src : source).
 
 (* table::apply_export as seen from here: None = Reject.  Arguments: source,
-   attributes and next hop after pre_policy_defaults, the original next hop. *)
-Definition policy_fn := source -> list attr -> option nexthop -> option nexthop
+   attributes and next hop after pre_policy_defaults, the original next hop, and
+   the is_confed flag process_nlri_change computes (receiver is a confed-eBGP
+   peer).  [policy_fn] is a policy that cannot panic; [policy_fn_r] one that can
+   (an as-prepend action runs the AS_PATH edits on whatever bytes it finds). *)
+Definition policy_fn := source -> list attr -> option nexthop -> option nexthop -> bool
                         -> option (list attr * option nexthop).
-Definition no_policy : policy_fn := fun _ a nh _ => Some (a, nh).
+Definition policy_fn_r := source -> list attr -> option nexthop -> option nexthop -> bool
+                          -> res (option (list attr * option nexthop)).
+Definition no_policy : policy_fn := fun _ a nh _ _ => Some (a, nh).
+Definition lift_policy (pol : policy_fn) : policy_fn_r := fun s a nh onh ic => Ok (pol s a nh onh ic).
+(* a panic makes the whole call panic, so that nothing is advertised: below the
+   panicking policy is the same as one that answers on the inputs it survives *)
+Definition lower_policy (polr : policy_fn_r) : policy_fn :=
+  fun s a nh onh ic => match polr s a nh onh ic with Ok o => o | Panic => None end.
 
 (* A one-statement export policy without conditions (table/src/policy.rs
-   Statement::apply, the nexthop and med actions; Policy::apply /
-   PolicyAssignment::apply for a single statement): the shape used to tie the
-   "export-policy next-hop / MED actions" of the property to the real
-   table::apply_export. *)
+   Statement::apply: the nexthop, med and as-prepend actions in the order of the
+   code; Policy::apply / PolicyAssignment::apply for a single statement): the shape
+   used to tie the "export-policy next-hop / MED actions" of the property, and the
+   is_confed argument, to the real table::apply_export. *)
 Inductive nh_action := NaAddress (ip : ipaddr) | NaSelf | NaPeer | NaUnchanged.
 Inductive med_action := MedMod (delta : Z) | MedReplace (v : Z).
 Inductive disp := DPass | DAccept | DReject.
 Record stmt := { st_nh : option nh_action; st_med : option med_action; st_disp : disp }.
+Record prepend_action := { pa_asn : N; pa_repeat : N; pa_left_most : bool }.
 
 Definition ip_to_nh (ip : ipaddr) : nexthop := match ip with IP4 b => NhV4 b | IP6 b => NhV6 b end.
 Definition clamp_u32 (z : Z) : N :=
   if (z <? 0)%Z then 0 else if (4294967295 <? z)%Z then 4294967295 else Z.to_N z.
 
-Definition stmt_policy (x : ectx) (raddr : ipaddr) (st : stmt) (default : disp) : policy_fn :=
-  fun _ a nh onh =>
-    let nh1 := match st_nh st with
-               | None => nh
-               | Some (NaAddress ip) => Some (ip_to_nh ip)
-               | Some NaSelf => Some (ip_to_nh (x_laddr x))
-               | Some NaPeer => Some (ip_to_nh raddr)
-               | Some NaUnchanged => match onh with Some o => Some o | None => nh end
+Definition stmt_nh (x : ectx) (raddr : ipaddr) (st : stmt) (nh onh : option nexthop) : option nexthop :=
+  match st_nh st with
+  | None => nh
+  | Some (NaAddress ip) => Some (ip_to_nh ip)
+  | Some NaSelf => Some (ip_to_nh (x_laddr x))
+  | Some NaPeer => Some (ip_to_nh raddr)
+  | Some NaUnchanged => match onh with Some o => Some o | None => nh end
+  end.
+
+Definition stmt_attrs (st : stmt) (a : list attr) : list attr :=
+  match st_med st with
+  | None => a
+  | Some act =>
+    let cur := match find_code MED a with
+               | Some m => match value m with Some v => v | None => 0 end
+               | None => 0
                end in
-    let a1 := match st_med st with
-              | None => a
-              | Some act =>
-                let cur := match find_code MED a with
-                           | Some m => match value m with Some v => v | None => 0 end
-                           | None => 0
-                           end in
-                let nm := match act with
-                          | MedMod d => clamp_u32 (Z.of_N cur + d)
-                          | MedReplace v => clamp_u32 v
-                          end in
-                filter (fun t => negb (a_code t =? MED)) a ++ [mk_val MED FLAG_OPTIONAL nm]
+    let nm := match act with
+              | MedMod d => clamp_u32 (Z.of_N cur + d)
+              | MedReplace v => clamp_u32 v
               end in
-    match (match st_disp st with DPass => default | d => d end) with
-    | DReject => None
-    | _ => Some (a1, nh1)
-    end.
+    filter (fun t => negb (a_code t =? MED)) a ++ [mk_val MED FLAG_OPTIONAL nm]
+  end.
+
+Definition stmt_rejects (st : stmt) (default : disp) : bool :=
+  match (match st_disp st with DPass => default | d => d end) with DReject => true | _ => false end.
+
+Definition stmt_policy (x : ectx) (raddr : ipaddr) (st : stmt) (default : disp) : policy_fn :=
+  fun _ a nh onh _ =>
+    if stmt_rejects st default then None else Some (stmt_attrs st a, stmt_nh x raddr st nh onh).
+
+(* AsPathIter::new(attr).next().and_then(|seg| seg.first().copied()): the first AS of
+   the first segment, provided that segment can be read completely *)
+Definition as_path_first_asn (a : attr) : res (option N) :=
+  match binary a with
+  | None => Panic
+  | Some buf =>
+    Ok (match buf with
+        | _ :: n :: x0 :: x1 :: x2 :: x3 :: rest =>
+          if n =? 0 then None
+          else if Nat.ltb (4 + length rest) (4 * N.to_nat n) then None
+          else Some (rd32 x0 x1 x2 x3)
+        | _ => None
+        end)
+  end.
+
+Fixpoint prepend_n (k : nat) (ty asn : N) (a : attr) : res attr :=
+  match k with O => Ok a | S k' => rbind (as_path_prepend ty asn a) (prepend_n k' ty asn) end.
+
+Definition apply_prepend (ic : bool) (pa : prepend_action) (attrs : list attr) : res (list attr) :=
+  if pa_repeat pa =? 0 then Ok attrs
+  else
+    let existing := match find_code AS_PATH attrs with Some p => p | None => empty_as_path end in
+    rbind (if pa_left_most pa
+           then rbind (as_path_first_asn existing)
+                      (fun o => Ok (match o with Some v => v | None => pa_asn pa end))
+           else Ok (pa_asn pa)) (fun asn =>
+      rbind (prepend_n (N.to_nat (pa_repeat pa)) (if ic then SEG_CONFED_SEQ else SEG_SEQ) asn existing) (fun np =>
+        Ok (filter (fun t => negb (a_code t =? AS_PATH)) attrs ++ [np]))).
+
+(* the statement with an as-prepend action; the actions run (and may panic) before
+   the disposition is looked at *)
+Definition stmt_policy_r (x : ectx) (raddr : ipaddr) (st : stmt) (pre : option prepend_action)
+           (default : disp) : policy_fn_r :=
+  fun _ a nh onh ic =>
+    rbind (match pre with None => Ok (stmt_attrs st a) | Some pa => apply_prepend ic pa (stmt_attrs st a) end)
+          (fun a2 => Ok (if stmt_rejects st default then None else Some (a2, stmt_nh x raddr st nh onh))).
 
 (* echo / split horizon / RS isolation *)
 Definition visible (x : ectx) (raddr : ipaddr) (cid : option N) (p : path) : bool :=
@@ -543,7 +595,7 @@ Definition visible (x : ectx) (raddr : ipaddr) (cid : option N) (p : path) : boo
 Definition policy_stage (x : ectx) (pol : policy_fn) (cid : option N) (fam : N) (p : path)
   : option (list attr * option nexthop) :=
   let '(a0, nh0) := pre_policy_defaults x (p_attrs p) (p_nh p) fam (src_is_local (p_src p)) in
-  match pol (p_src p) a0 nh0 (p_nh p) with
+  match pol (p_src p) a0 nh0 (p_nh p) (role_eqb (x_role x) ConfedEbgp) with
   | None => None
   | Some (a1, nh1) =>
     let a2 := match cid with
@@ -624,6 +676,70 @@ Definition process_change_v (fixed : bool) (x : ectx) (pol : policy_fn) (emax : 
 
 (* the code of the working tree *)
 Definition process_change := process_change_v true.
+
+(* the same with an export policy that can panic: the panic is the panic of the call *)
+Definition policy_stage_r (x : ectx) (polr : policy_fn_r) (cid : option N) (fam : N) (p : path)
+  : res (option (list attr * option nexthop)) :=
+  let '(a0, nh0) := pre_policy_defaults x (p_attrs p) (p_nh p) fam (src_is_local (p_src p)) in
+  rbind (polr (p_src p) a0 nh0 (p_nh p) (role_eqb (x_role x) ConfedEbgp)) (fun o =>
+    Ok (match o with
+        | None => None
+        | Some (a1, nh1) =>
+          Some (match cid with
+                | Some c => if is_ibgp_learned (p_src p) then rr_reflect_attrs a1 (src_rid (p_src p)) c else a1
+                | None => a1
+                end, nh1)
+        end)).
+
+Fixpoint top_n_r (x : ectx) (polr : policy_fn_r) (cid : option N) (fam : N) (cand : list path)
+  : res (list (N * list attr * option nexthop * source)) :=
+  match cand with
+  | [] => Ok []
+  | p :: t =>
+    rbind (policy_stage_r x polr cid fam p) (fun o =>
+      rbind (top_n_r x polr cid fam t) (fun r =>
+        Ok (match o with
+            | None => r
+            | Some (a, nh) => (p_lpid p, llgr_stage p a, nh, p_src p) :: r
+            end)))
+  end.
+
+Definition process_change_r (fixed : bool) (x : ectx) (polr : policy_fn_r) (emax : N) (raddr : ipaddr)
+           (cid : option N) (c : change) (e : emap) : res (list sinkop * emap) :=
+  if emax =? 1 then
+    let llgr_refresh := fixed && c_any_changed c &&
+                        match c_paths c with best :: _ => src_llgr (p_src best) | [] => false end in
+    if negb (c_best_changed c) && negb llgr_refresh then Ok ([], e)
+    else
+      let vis := match c_paths c with
+                 | [] => None
+                 | best :: _ => if visible x raddr cid best then Some best else None
+                 end in
+      rbind (match vis with
+             | None => Ok None
+             | Some best => rbind (policy_stage_r x polr cid (c_family c) best) (fun o =>
+                              Ok (match o with None => None | Some (a, nh) => Some (best, a, nh) end))
+             end) (fun pr =>
+        match pr with
+        | None =>
+          if em_was_sent e (c_dest c)
+          then Ok ([Unreach (c_dest c) 0], em_mark_withdrawn e (c_dest c) 0)
+          else Ok ([], e)
+        | Some (best, a, nh) =>
+          rbind (export_attrs x (llgr_stage best a)) (fun a' =>
+            Ok ([Reach (c_dest c) 0 nh a' (p_src best)], em_mark_sent e (c_dest c) 0))
+        end)
+  else
+    if negb (c_any_changed c) then Ok ([], e)
+    else
+      let cand := firstn (N.to_nat emax) (filter (visible x raddr cid) (c_paths c)) in
+      rbind (top_n_r x polr cid (c_family c) cand) (fun top =>
+        let sent := em_sent_path_ids e (c_dest c) in
+        let cur := map (fun t => fst (fst (fst t))) top in
+        let gone := sort_n (filter (fun pid => negb (mem pid cur)) sent) in
+        let e1 := fold_left (fun e pid => em_mark_withdrawn e (c_dest c) pid) gone e in
+        rbind (addpath_reaches fixed x (c_dest c) (c_replaced c) e1 top) (fun r =>
+          Ok (map (fun pid => Unreach (c_dest c) pid) gone ++ fst r, snd r))).
 
 (* the session loop: every NlriChange delivered to a neighbour's task goes through
    handle_prefix_update -> process_nlri_change with the same ExportMap and sink
@@ -721,7 +837,7 @@ Inductive case :=
 | CLlgrScenario (x : ectx) (emax : N) (raddr : ipaddr) (cid : option N) (ps : peer_src)
                 (nh : option nexthop) (attrs : list attr)               (* 11 *)
 | CProcessPol (x : ectx) (emax : N) (raddr : ipaddr) (cid : option N) (c : change) (e : emap) (probe : list N)
-              (st : stmt) (default : disp)                              (* 12: with a real export policy *)
+              (st : stmt) (pre : option prepend_action) (default : disp) (* 12: with a real export policy *)
 | CHistory (x : ectx) (emax : N) (raddr : ipaddr) (cid : option N) (cs : list change) (probe : list N). (* 13 *)
 
 Definition run_case (c : case) : val :=
@@ -745,9 +861,9 @@ Definition run_case (c : case) : val :=
   | CLlgrScenario x emax raddr cid ps nh attrs =>
     v_res (fun r => VL [VList v_sinkop (fst (fst r)); VList v_sinkop (snd (fst r))])
           (llgr_scenario x no_policy emax raddr cid ps nh attrs)
-  | CProcessPol x emax raddr cid ch e probe st default =>
+  | CProcessPol x emax raddr cid ch e probe st pre default =>
     v_res (fun r => VL [VList v_sinkop (fst r); v_emap (snd r) probe])
-          (process_change x (stmt_policy x raddr st default) emax raddr cid ch e)
+          (process_change_r true x (stmt_policy_r x raddr st pre default) emax raddr cid ch e)
   | CHistory x emax raddr cid cs probe =>
     v_res (fun r => VL [VList v_sinkop (fst r); v_emap (snd r) probe])
           (run_changes x no_policy emax raddr cid cs (if emax =? 1 then ENone else EAddPath []))
